@@ -1,0 +1,18 @@
+//go:build verif
+// +build verif
+
+package utility
+
+import "math/big"
+
+// VerifC18StrToBigInt exposes strToBigInt (string -> integer scaled by 10^decimal)
+// with an arbitrary decimal count to the verification harness.
+func VerifC18StrToBigInt(s string, decimal int64) (*big.Int, error) {
+	return strToBigInt(s, decimal)
+}
+
+// VerifC18BigIntToStr exposes bigIntToStr (integer -> decimal string with
+// `precision` fractional digits) to the verification harness.
+func VerifC18BigIntToStr(n *big.Int, precision int) string {
+	return bigIntToStr(n, precision)
+}
